@@ -28,7 +28,7 @@ class World:
         if it != self._seam_iter:
             self._seam_iter, self._seam_calls = it, 0
         self._seam_calls += 1
-        if self._seam_calls > 20000:
+        if self._seam_calls > 5000:
             raise SimLivelock()
 
     def rng(self, *key):
